@@ -529,7 +529,8 @@ def _impl_atad(case):
         for i, p in enumerate(piv):
             perm[[i, p]] = perm[[p, i]]
         G = np.zeros_like(fac)
-        G[perm] = L @ U
+        with np.errstate(all="ignore"):
+            G[perm] = L @ U
     return {"x": np.array(x), "acc": acc, "xq": xq, "accp": accp, "gsize": int(fac.shape[0]), "G": G}
 
 
